@@ -62,7 +62,11 @@ Theorem C04_block_is_wire_prefix :
   forall zst zinit zstep zeof zfl (o : oracle) next uri pieces (P : params) (bs : list N) ef,
     let recs := session_records zst zinit zstep zeof zfl o next uri pieces P (mkConn bs ef) in
     recs = [req_record next uri pieces]
-    \/ exists block tail, recs = [req_record next uri pieces; resp_record next uri block] /\ bs = block ++ tail.
+    \/ exists block tail, recs = [req_record next uri pieces; resp_record next uri block] /\ bs = block ++ tail
+                          /\ match session_conn zst zinit zstep zeof zfl o P (mkConn bs ef) with
+                             | Some c1 => pending c1 = tail        (* the rest is still unread on the open connection *)
+                             | None => True                        (* or wpull closed the connection *)
+                             end.
 Proof. exact records_any_stream. Qed.
 Print Assumptions C04_block_is_wire_prefix.
 
